@@ -266,24 +266,38 @@ def gen_lbfgs_box_converge_case(r, nsteps):
     return ops
 
 
+def rosen_grad(x):
+    n = len(x); g = [0.0] * n
+    for i in range(n - 1):
+        a = x[i + 1] - x[i] * x[i]; cc = 1.0 - x[i]
+        g[i] += -400.0 * a * x[i] - 2.0 * cc
+        g[i + 1] += 200.0 * a
+    return g
+
+
 def gen_linesearch_case(r, nls):
-    """direct line searches from arbitrary points along arbitrary directions: descent (-g, scaled), ascent (+g),
-    zero, random; many start at the origin or have zero coordinates so that a spurious move is visible"""
-    while True:
-        ops, n, okind, box = gen_objective(r, boxed=False)
-        if okind[0] == "quad":
-            break
-    A = [struct.unpack(">d", bytes.fromhex(t[1:]))[0] for t in ops[0].split()[3:3 + n * n]]
-    b = [struct.unpack(">d", bytes.fromhex(t[1:]))[0] for t in ops[0].split()[3 + n * n:]]
+    """direct line searches (all three types) from arbitrary points along arbitrary directions: descent (-g, scaled by
+    2^-20 .. 2^20 so that the minimiser along the line lies near either end of the first bracket, or far beyond it),
+    ascent (+g), zero, random; quadratics and Rosenbrock (where cubic interpolation is not exact, so that the zoom phase
+    iterates and its 10 % safeguard is used); initial step lengths 2^-10 .. 100; many start at the origin or have zero
+    coordinates so that a spurious move is visible"""
+    ops, n, okind, box = gen_objective(r, boxed=False)
+    if okind[0] == "quad":
+        A = [struct.unpack(">d", bytes.fromhex(t[1:]))[0] for t in ops[0].split()[3:3 + n * n]]
+        b = [struct.unpack(">d", bytes.fromhex(t[1:]))[0] for t in ops[0].split()[3 + n * n:]]
+        grad = lambda x: [sum(A[i * n + j] * x[j] for j in range(n)) - b[i] for i in range(n)]
+    else:
+        grad = rosen_grad
     for _ in range(nls):
-        x = [r.choice([0, 0, 1, -1, 0.5, r.range(-16, 16) / 4]) for _ in range(n)]
-        g = [sum(A[i * n + j] * x[j] for j in range(n)) - b[i] for i in range(n)]
-        k = r.below(8)
-        if k < 3: d = [-v * r.choice([1, 1, 0.25, 2.0 ** 20, 2.0 ** -20]) for v in g]
-        elif k < 5: d = [v * r.choice([1, 2.0 ** 10, 2.0 ** -10]) for v in g]       # ascent: every trial fails
-        elif k < 6: d = [0.0] * n
+        if okind[0] == "quad": x = [r.choice([0, 0, 1, -1, 0.5, r.range(-16, 16) / 4]) for _ in range(n)]
+        else: x = [r.choice([0, 1, -1, 0.5, r.range(-12, 12) / 8]) for _ in range(n)]
+        g = grad(x)
+        k = r.below(10)
+        if k < 5: d = [-v * r.choice([1, 1, 0.25, 4, 1 / 64, 64, 2.0 ** 20, 2.0 ** -20]) for v in g]
+        elif k < 7: d = [v * r.choice([1, 2.0 ** 10, 2.0 ** -10]) for v in g]       # ascent: every trial fails
+        elif k < 8: d = [0.0] * n
         else: d = [r.range(-8, 8) / 2 for _ in range(n)]
-        ops.append("ls %s %s %s %s" % (fb(r.choice([2, 2, 2, 1, 0])), fb(r.choice([1.0, 1.0, 0.5, 8.0, 2.0 ** -10])), nums(x), nums(d)))
+        ops.append("ls %s %s %s %s" % (fb(r.choice([2, 2, 1, 1, 1, 0, 0])), fb(r.choice([1.0, 1.0, 0.5, 8.0, 100.0, 0.125, 2.0 ** -10])), nums(x), nums(d)))
     return ops
 
 
